@@ -171,3 +171,12 @@ def per_call_validators_ignored_on_objects(job, failure) -> bool:
 
 def deep_nesting_recursion_error(job, failure) -> bool:
     return job.get("variant") == "deep" and failure.get("extra", {}).get("exc") == "RecursionError"
+
+
+def graphql_subclass_resolves_as_parent(job, failure) -> bool:
+    """C19: an instance of a subclass of another object type of the schema is resolved as
+    the parent type (is_type_of is isinstance; graphql-core takes the first match)"""
+    if failure.get("kind") != "interface-typename-differs":
+        return False
+    ex = failure.get("extra", {})
+    return ex.get("expected", {}).get("__typename") == "Employee" and ex.get("data", {}).get("__typename") == "Plain"
